@@ -119,6 +119,13 @@ impl SearchApp {
             CompassAppError::PluginError(PluginError::InputPluginFailed { source: e })
         })?;
 
+        // an origin that is not in the graph has no incident edges: without this check a
+        // destination-less search "succeeds" with an empty tree (an unknown destination, and
+        // unknown origin / destination edges, are rejected further down)
+        self.directed_graph
+            .get_vertex(&o)
+            .map_err(|e| CompassAppError::SearchFailure(e.into()))?;
+
         let search_instance = self.build_search_instance(query)?;
         self.search_algorithm
             .run_vertex_oriented(o, d, query, &Direction::Forward, &search_instance)
